@@ -170,6 +170,7 @@ type Cell struct {
 	LenVal  *Val   // for make([]T, n): n
 	Alias   *Cell  // union-find parent: two cells that may be the same object were merged
 	Tag     string // stable name (function + SSA value), used in From / LenOf markers
+	TypeTag string // for locals of a raw decoder struct type: "t:<pkg>.<Type>" — a From marker that survives calls
 	Site    token.Pos
 }
 
@@ -650,6 +651,9 @@ func (in *Interp) cellRead(c *Cell, sel string) *Val {
 	r := *v
 	r.fpOK = false
 	r.From = sortedUnion(r.From, []string{c.Tag + sel})
+	if c.TypeTag != "" {
+		r.From = sortedUnion(r.From, []string{c.TypeTag + strings.Join(dropSliceSels(splitSel(sel)), "")})
+	}
 	return &r
 }
 
